@@ -329,7 +329,7 @@ def _same(a, b):
 
 # ------------------------------------------------------------------------------------------ reference model
 class _N:
-    __slots__ = ("cls", "key", "prio", "ro", "obj", "kids", "parent", "default", "value", "lo", "hi", "opts",
+    __slots__ = ("dsnap", "cls", "key", "prio", "ro", "obj", "kids", "parent", "default", "value", "lo", "hi", "opts",
                  "q", "nid")
 
     def __init__(self, cls, key, prio, ro, obj):
@@ -738,6 +738,15 @@ def _check_all(S, opi, memb_kind="children-membership"):
                                             want_prio=[c.prio for c in exp],
                                             inserted=[c.key for c in n.kids]))
                         return False
+                    # the default value of a map (whatever it is) never changes either
+                    dv = obj.default_value
+                    snap = None if dv is None else (type(dv).__name__, [str(k) for k in dv] if isinstance(dv, dict)
+                                                    else repr(dv))
+                    if not hasattr(n, "dsnap"):
+                        n.dsnap = snap
+                    elif snap != n.dsnap:
+                        out.fail("default-changed:map", dict(where, got=snap, want=n.dsnap))
+                        return False
                     if attached and len({c.prio for c in n.kids}) < len(n.kids):
                         S.tie = True
                     if not isinstance(obj, P.InputParameterMap):
@@ -748,6 +757,10 @@ def _check_all(S, opi, memb_kind="children-membership"):
                         out.fail("value-drift:" + n.cls, dict(where, got=_enc_obs(val), want=_enc_obs(n.value)))
                         return False
                     verdict, reason = _valid(n, val)
+                    if n.cls == "float" and isinstance(val, _env()["Quantity"]):
+                        # (whether a quantity may be OFFERED to a float parameter is left open, but what the
+                        # parameter then holds must be a number one can calculate with, not a quantity object)
+                        verdict, reason = "R", "quantity-object-stored"
                     if verdict == "R":
                         out.fail("value-type-bounds:%s:%s" % (n.cls, reason),
                                  dict(where, value=_enc_obs(val), node_spec=_desc(n)))
